@@ -1,6 +1,6 @@
 // ---------- prelude/norm_traits: the uniform step-kernel law (C08) as trait contracts ----------
 // Discharged per radix on the real `znx_normalize_*_ref` functions by Kani (kx/cpu_ref/lib.rs::kernel_laws, harnesses
-// c08_kernels_b<radix>): x_out + c_out*2^b == a*2^lsh + c_in, x_out balanced, |c_out| <= H for |a|,|c_in| <= H (lsh = 0).
+// c08_{first,middle,final,digit}_b<radix>): x_out + c_out*2^b == a*2^lsh + c_in, x_out balanced, |c_out| <= H for |a|,|c_in| <= H (lsh = 0).
 pub open spec fn balanced(b: nat, d: int) -> bool { b >= 1 && -p2((b - 1) as nat) <= d < p2((b - 1) as nat) }
 pub open spec fn H() -> int { 0x2000_0000_0000_0000 } // 2^61 headroom
 
